@@ -21,6 +21,7 @@ func init() {
 			"(D4) index siblings agree: add writes and remove deletes exactly all maps of the index, nothing else mutates them, add and remove address each map with the same key expression, and every identifier map is consulted by a clash check and by a finder; (D5) every access to the indexes happens under the storage mutex. " +
 			"(D6) the most specific subnet wins: the comparator the subnet index is sorted with, evaluated over the finite domain {sign of the prefix-length difference} x {sign of the address comparison}, puts the longer prefix first for every address relation, is antisymmetric and zero only for the same subnet; the lookup's range callback stops at the first prefix that contains the address. " +
 			"(D6, cont.) the exact-address index is probed with the request's address unchanged (its keys keep the zone they were configured with). " +
+			"(D1, cont.) whether the DHCP-lease level of the lookup cascade is tried depends only on the earlier levels (and a DHCP server being there), not on any other setting of the storage. " +
 			"Not decided: consistency over arbitrary add/update/remove histories, DHCP-lease interleavings, prefix containment itself.",
 		RuleText:    "Call ordering and edge guards on SSA, field-set agreement between sibling functions, who-may-write enumeration, lock dominance over static callers.",
 		Assumptions: []string{"aghalg.SortedMap iterates in comparator order"},
@@ -114,6 +115,55 @@ func runC04(c *Ctx) {
 			r.Check(n2 > 0 && len(off2) == 0, "C04-D1", "precedence:ip-before-mac:"+fk, p.FnPos(fn),
 				"the DHCP MAC is consulted only after the address lookup found nothing", "the DHCP MAC lookup can run before the address lookup failed", traceOf(p, off2)...)
 		}
+	}
+	// the DHCP-lease level of the cascade is part of finding a persistent client: whether it is tried depends on
+	// the earlier levels having found nothing (and on a DHCP server being there), not on any other setting of the
+	// storage — the runtime-sources switches govern runtime clients only
+	for _, fk := range []string{"(*client.Storage).ApplyClientFiltering", "(*client.Storage).Find", "(*client.Storage).FindLoose"} {
+		fn := p.Fn(fk)
+		if fn == nil {
+			r.Undecided("C04-D1", "lease-level:"+fk, "-", "anchor not found")
+			continue
+		}
+		var sites []ssa.Instruction
+		for _, b := range fn.Blocks {
+			for _, in := range b.Instrs {
+				if core.IsCallTo(false, "iface:(client.DHCP).MACByIP")(in) {
+					sites = append(sites, in)
+				}
+			}
+		}
+		var bad []string
+		for _, site := range sites {
+			for _, b := range fn.Blocks {
+				iff, ok := b.Instrs[len(b.Instrs)-1].(*ssa.If)
+				if !ok {
+					continue
+				}
+				at := core.Decompose(iff.Cond)
+				field := ""
+				for _, v := range []ssa.Value{at.Base, at.Other} {
+					if v == nil {
+						continue
+					}
+					if fr, _, isF := core.LoadedField(core.ResolveCellLoad(v)); isF && fr.Type == "client.Storage" && fr.Field != "dhcp" {
+						field = fr.Field
+					}
+				}
+				if field == "" {
+					continue
+				}
+				for succ := 0; succ < 2; succ++ {
+					found, _, _ := core.Reach(core.Query{From: []core.Point{core.Entry(fn)}, Target: func(x ssa.Instruction) bool { return x == site }, AvoidEdges: map[core.Edge]bool{{From: b, Succ: succ}: true}})
+					if !found {
+						bad = append(bad, "whether the lease's MAC is looked up depends on Storage."+field+" ("+p.InstrPos(iff)+")")
+					}
+				}
+			}
+		}
+		r.Check(len(sites) > 0 && len(bad) == 0, "C04-D1", "lease-level-unconditional:"+fk, p.FnPos(fn),
+			"the lookup by the MAC of the address's DHCP lease is tried whenever the earlier levels found nothing",
+			"the DHCP-lease level of the client lookup is switched by another setting of the storage: with that setting off, a client configured by MAC is not found by its leased address and gets the default (or a broader client's) settings", bad...)
 	}
 	fip := p.Fn(kByIP)
 	if fip == nil {
@@ -768,7 +818,7 @@ func ownBlockedServices(c *Ctx, rule string) {
 		bad := np == 0
 		var det []string
 		for e := range gp {
-			if found, tr, _ := core.Reach(core.Query{From: []core.Point{{Block: e.From.Succs[e.Succ], Idx: 0}}, Target: core.IsReturn, Avoid: isReset}); found {
+			if found, tr, _ := core.Reach(core.Query{From: []core.Point{core.AfterEdge(e)}, Target: core.IsReturn, Avoid: isReset}); found {
 				bad = true
 				det = append(det, p.TraceString(tr))
 			}
